@@ -849,6 +849,12 @@ end
 
 /-! ### a top-level call `template(client, mapping, **kw)` -/
 
+/-- `String.initvars(mapping, vars)`: the template's defaults are the construction-time keyword
+arguments, completed by the entries of the construction-time mapping whose key does not start
+with an underscore and is not already a keyword -/
+def initvars (ckw cmapping : List (Text × Val)) : List (Text × Val) :=
+  ckw ++ cmapping.filter (fun kv => kv.1.head? != some '_' && !(ckw.any (·.1 == kv.1)))
+
 structure CallArgs where
   clients : List Val := []                 -- the client tuple, in order
   mapping : List (Text × Val) := []
